@@ -150,6 +150,10 @@ def make_files(rng, root, count, nbytes, layout):
         for nm, size in (("README.txt", 100), ("notes.binx", 6000), ("data.bin.bak", 125000), ("x.csv", 3 * nbytes + 17)):
             with open(os.path.join(root, nm), "wb") as fh:
                 fh.write(rng.randbytes(size))
+        # suffixes that differ from .bin/.dat only in letter case, with the size and content of a sample
+        for nm in ("ARCHIVE.BIN", "Old.Dat"):
+            with open(os.path.join(root, nm), "wb") as fh:
+                fh.write(rng.randbytes(nbytes))
     return files
 
 
@@ -171,10 +175,20 @@ def tables_for(hz, files):
     return {r["file"]: r for r in rows}
 
 
-def events_for(scale, files, header, rows, tables, code, hang, exempt=False):
+def optional_files(root):
+    """Files under root whose suffix is .bin/.dat only up to letter case (README.BIN, Old.Dat)."""
+    out = []
+    for d, _, fs in os.walk(root):
+        for f in fs:
+            if f.lower().endswith((".bin", ".dat")) and not f.endswith((".bin", ".dat")):
+                out.append(os.path.join(d, f))
+    return sorted(out)
+
+
+def events_for(scale, files, header, rows, tables, code, hang, exempt=False, optional=()):
     names = [os.path.basename(f) for f in files]
     nbits = tables[names[0]]["nbits"] if names else 0
-    ev = [{"ev": "start", "scale": scale, "files": names, "nbits": nbits, "exempt": exempt}]
+    ev = [{"ev": "start", "scale": scale, "files": names, "optional": [os.path.basename(f) for f in optional], "nbits": nbits, "exempt": exempt}]
     cells = [tokenize(c) for c in header[1:]] if header else []
     ev.append({"ev": "header", "cells": cells, "first": header[0] if header else ""})
     for r in rows:
@@ -218,11 +232,73 @@ def run(tier):
             if not getattr(p2, "timed_out", False):
                 p, hang = p2, False
         header, rows = parse_report(rep) if os.path.exists(rep) else ([], [])
-        tables = tables_for(hz, files)
-        groups.append(events_for(scale, files, header, rows, tables, p.returncode if not hang else -9, hang))
+        opt = optional_files(root)
+        tables = tables_for(hz, files + opt)
+        groups.append(events_for(scale, files, header, rows, tables, p.returncode if not hang else -9, hang, optional=opt))
         metas.append({"scenario": {"scale": scale, "files": cnt, "workers": n, "layout": layout, "gomaxprocs": gmp, "report_in_new_dir": newdir},
                       "stderr_tail": (p.stderr or "")[-600:], "rows": len(rows)})
         run.nontriv(json.dumps(metas[-1]["scenario"], sort_keys=True))
+    # ---- the report goes to a slow sink (a named pipe with a one-page buffer, drained a few hundred bytes at a time, as when
+    # the report is piped into another program): the writer goroutine is then blocked most of the time, and the run may only
+    # end once the last row has really been handed to the sink
+    import fcntl, threading, time as _t
+    # (the pipe hands space back to the writer a page at a time, so which row has to wait depends on the byte count: the run
+    # is repeated with k, k+1, ... sample files so that for one of them it is the very last row)
+    roots = os.path.join(work, "in_slow")
+    k0, kn = (24, 40) if thorough else (20, 34)
+    files_all = make_files(rng, roots, kn, 2500, "flat")
+    tables_all = tables_for(hz, files_all)
+
+    def slow_run(k):
+        rootk = os.path.join(work, "in_slow_%d" % k)
+        os.makedirs(rootk)
+        fk = []
+        for f in files_all[:k]:
+            dst = os.path.join(rootk, os.path.basename(f))
+            os.link(f, dst)
+            fk.append(dst)
+        fifo = os.path.join(work, "report_slow_%d.fifo" % k)
+        os.mkfifo(fifo)
+        rfd = os.open(fifo, os.O_RDONLY | os.O_NONBLOCK)
+        try:
+            fcntl.fcntl(rfd, 1031, 4096)    # F_SETPIPE_SZ
+        except OSError:
+            pass
+        got = bytearray()
+        state = {"done": False}
+
+        def drain():
+            while True:
+                try:
+                    chunk = os.read(rfd, 256)
+                except BlockingIOError:
+                    chunk = None
+                if chunk:
+                    got.extend(chunk)
+                    _t.sleep(0.004)
+                elif state["done"]:
+                    break
+                else:
+                    _t.sleep(0.002)
+        th = threading.Thread(target=drain)
+        th.start()
+        ps = vlib.run_bin(tool, ["-i", rootk, "-o", fifo, "-n", "3"], timeout=300, cwd=work)
+        state["done"] = True
+        th.join()
+        os.close(rfd)
+        repk = os.path.join(work, "report_slow_%d.csv" % k)
+        with open(repk, "wb") as fh:
+            fh.write(bytes(got))
+        header, rows = parse_report(repk)
+        to = bool(getattr(ps, "timed_out", False))
+        return (events_for(20000, fk, header, rows, tables_all, ps.returncode if not to else -9, to),
+                {"scenario": {"scale": 20000, "files": k, "workers": 3, "layout": "flat", "report": "named pipe, 4096-byte buffer, drained 256 bytes at a time"},
+                 "stderr_tail": (ps.stderr or "")[-600:], "rows": len(rows)})
+    for k in range(k0, kn + 1):
+        g, m = slow_run(k)
+        groups.append(g)
+        metas.append(m)
+    run.nontriv("slow-sink")
     # ---- beyond the property: unsupported sample size -> terminates without a report
     rootu = os.path.join(work, "in_unsupported")
     make_files(rng, rootu, 3, 1000, "flat")
